@@ -1399,13 +1399,24 @@ class Engine:
         args = []
         for a in node.args:
             if isinstance(a, ast.Starred):
+                v = self.eval(st, a.value)
+                if isinstance(v, VTuple):
+                    # f(*t) for a tuple with known components (in particular
+                    # the function's own *args, which the contracts under
+                    # verification fix to be empty)
+                    args.extend(v.items)
+                    continue
                 raise Unsupported("*args at call site")
             args.append(self.eval(st, a))
         kwargs = {}
         for k in node.keywords:
             if k.arg is None:
+                v = self.eval(st, k.value)
+                if isinstance(v, VDict) and v.val is None and \
+                        z3.is_const_array(v.dom):
+                    continue        # f(**{}) : the function's own empty **kwargs
                 # f(**d): only meaningful for opaque library calls
-                kwargs["**"] = self.eval(st, k.value)
+                kwargs["**"] = v
                 continue
             kwargs[k.arg] = self.eval(st, k.value)
         return args, kwargs
